@@ -554,9 +554,11 @@ def r4(ctx):
             sl = b.slice([pl["local"]])
             lk = sl.find_calls(r"HashMap::<K, V, S, A>::(get_mut|get|contains_key)$")
             if lk and 1 not in vals:
-                k1 = b.slice_op(lk[0][1]["args"][1]).locals
-                k2 = b.slice_op(t_ins["args"][1]).locals
-                if k1 & k2:
+                s1, s2 = b.slice_op(lk[0][1]["args"][1]), b.slice_op(t_ins["args"][1])
+                # the name looked up is the name stored under: both the NORMALISED name (a lookup by the raw spelling
+                # misses `X%2DAmz-Date` after `X-Amz-Date` and the insert then replaces the list)
+                NRM = r"canonical::normalize_query_string_element$"
+                if (s1.locals & s2.locals) and bool(s1.has_call(NRM)) == bool(s2.has_call(NRM)) and s2.has_call(NRM):
                     okg = True
         if not okg:
             yield VIOL("C10-R4", "qsm/insert-overwrites", "HashMap::insert of a value list is not guarded by a failed lookup of the same name: an earlier value list would be replaced (duplicates lost)", where=b.span_of_block(ib))
